@@ -137,6 +137,34 @@ def replay_state(st):
     return bad, events
 
 
+def few_points(ctx):
+    """segments and triangles in 3-5-D (fewer points than dimensions): volume within the affine span, and mean width
+    of a segment = length x E|u_1| (checked through homogeneity: twice the segment, twice the width)"""
+    dreye = import_dreye()
+    res = tlc.run("mc/MC_C18F", cfg="mc/MC_C18F.cfg", dump=True)
+    ctx.add_tlc(res)
+    sts = [s for s in tlc.states_parallel(res, "out") if "kind" in s]
+    tlc.cleanup(res)
+    n = 0
+    for st in sts:
+        P = np.array(st["P"], float)
+        w = dict(kind=st["kind"], d=st["d"], few_points=True, degenerate=st["sq"] == 0)
+        want = st["sq"] ** 0.5 if st["kind"] == "segment" else st["sq"] ** 0.5 / 2
+        n += 1
+        try:
+            v = float(dreye.compute_volume(P.copy()))
+            if abs(v - want) > 1e-7 * (1 + want):
+                ctx.violation("C18.volume-value", w, dict(P=st["P"]), want, v)
+            w1 = float(dreye.compute_mean_width(P.copy(), n=300, seed=4))
+            w2 = float(dreye.compute_mean_width(P * 2.0 + 7.0, n=300, seed=4))
+            if abs(w2 - 2 * w1) > 1e-9 * (1 + w1):
+                ctx.violation("C18.width-homogeneous", w, dict(P=st["P"]), 2 * w1, w2)
+        except Exception as ex:
+            ctx.violation("C18.no-error", dict(exc=type(ex).__name__, **w), dict(P=st["P"]), None, repr(ex)[:200])
+    ctx.count("few-point clouds (segments / triangles in 3-5-D)", n)
+    ctx.evaluations += n
+
+
 def gamut_and_jsd(seed):
     """gamut-metric relations and Jensen-Shannon measurements"""
     dreye = import_dreye()
@@ -254,6 +282,7 @@ def run(ctx):
         if st["hist"]:
             ctx.nontrivial.add(repr((st["meta"]["name"], st["hist"])))
         ctx.count("base:" + st["meta"]["name"])
+    few_points(ctx)
     gbad, gev = gamut_and_jsd(ctx.seed)
     for clause, where, exp, obs in gbad:
         ctx.violation(clause, where, dict(), exp, obs)
